@@ -204,6 +204,24 @@ def gen_case(seed, tier='quick'):
                  'value': worlds.enc(c04.new_value(rng))},
                 p0, dict(restore(p0['path']), fault=None)]
         ops[-1].pop('fault', None)
+    if compiled and inputs and rng.random() < 0.08:
+        # write, change, a write that fails (at open, or later), the retry
+        # that every caller would make, and a restore of what is on disk
+        p0 = persist()
+        p0.pop('fault', None)
+        bad = dict(p0)
+        import errno as _e
+        bad['fault'] = rng.choice([
+            {'kind': 'open'}, {'kind': 'open'},
+            {'kind': 'eio', 'at': 1, 'errno': rng.choice(
+                [_e.EIO, _e.EAGAIN, _e.EDQUOT]), 'partial': False},
+            {'kind': 'enospc', 'frac': 0.0},
+            {'kind': 'interrupt', 'frac': round(rng.uniform(0.0, 0.5), 3)}])
+        a_ = rng.choice([x for x in inputs if x in world['cells']] or inputs)
+        ops += [p0, {'op': 'set', 'target': a_,
+                     'value': worlds.enc(c04.new_value(rng))},
+                bad, dict(p0), dict(restore(p0['path']), fault=None)]
+        ops[-1].pop('fault', None)
     digit_inputs = [a for a in inputs
                     if world['cells'].get(a) in (1, 2, 3, 7)
                     and not isinstance(world['cells'].get(a), bool)]
